@@ -435,4 +435,15 @@ theorem repl_caller_loop_bound_init (v : Gen.Variant) (stream : List Nat) (hb : 
     (h : DReplLoop (famOfVariant v) (famOfVariant v).init stream n c) : n ≤ stream.length + c + 6 :=
   repl_caller_loop_bound v _ (variantInv_init v) stream hb n c h
 
+/-! Non-vacuity: the loop relation is inhabited — x-user-defined, `A B 80`, four-byte UTF-8
+destination: the first `last` call writes `A B` and stops with an admissible `OutputFull` (2 written,
+3 asked for), the second call ends the stream: two calls, `2 ≤ 3 + 0 + 6`. -/
+example : DLoop userDefinedFam () [0x41, 0x42, 0x80] 2 0 :=
+  DLoop.lastStep (F := userDefinedFam) .utf8 () [0x41, 0x42, 0x80] (.full 2) 4 1 0 (by decide) (by decide)
+    ⟨by decide, by intro _; decide, by
+      intro l a h
+      have hr : (call userDefinedFam .utf8 () [0x41, 0x42, 0x80] true (.full 2)).res = .outputFull := by decide
+      rw [hr] at h; cases h⟩
+    (DLoop.final (F := userDefinedFam) .utf8 () [0x80] .unlimited (by decide))
+
 end EncodingRs.Thm.C08Loop
